@@ -2,4 +2,4 @@
 # tools/mut.sh <relpath> <old> <new> <contract keys...> : verify with an in-memory textual mutation (dev helper, summary only)
 cd "$(dirname "$0")/.."
 M=$(ls contracts/c_*.py | xargs -n1 basename | sed 's/.py//' | tr '\n' ',' | sed 's/,$//')
-PYTHONHASHSEED=0 python3-vt -m pyvc.devmut $M "$@" 2>&1 | grep -E "^==|refuted|unknown|Error|vacuous|disag" | sed -E 's/^ +(refuted|unknown)[ 0-9.s]+[^ ]*:([^:]+:[^:]+:[^#]*)#[0-9]+.*/   \1 \2/' | sort | uniq -c | sort -k2 | cut -c1-260
+PYTHONHASHSEED=0 python3-vt -m pyvc.devmut $M "$@" 2>&1 | grep -E "^==|^!!|refuted|unknown|Error|vacuous|disag" | sed -E 's/^ +(refuted|unknown)[ 0-9.s]+[^ ]*:([^:]+:[^:]+:[^#]*)#[0-9]+.*/   \1 \2/' | sort | uniq -c | sort -k2 | cut -c1-260
